@@ -56,6 +56,9 @@ theorem update_eq (table : Bytes) (rowId : Nat) (cols : List String) (src : List
       let off ← relationOffset table
       let _ ← fetch off
       let schema ← relationSchema table
+      match checkColumns schema cols with
+      | some e => throw e
+      | none =>
       let cells ← scanRight off
       let logs ← mapS (updateRow schema rowId cols src) cells
       pure logs.flatten) := rfl
@@ -142,6 +145,11 @@ theorem update_err_cases (table : Bytes) (rowId : Nat) (cols : List String) (src
     exact .inl ⟨f3, (d1.trans d2).trans d3⟩
   obtain ⟨f3, d3⟩ := (ReadOnly.relationSchema _).ok f2 h3
   have d13 := (d1.trans d2).trans d3
+  cases hcc : checkColumns schema cols with
+  | some ec => rw [hcc] at h; cases h; exact .inl ⟨f3, d13⟩
+  | none =>
+  rw [hcc] at h
+  simp only at h
   rcases bind_eq_err h with h4 | ⟨cells, s4, h4, h⟩
   · obtain ⟨f4, d4⟩ := (ReadOnly.scanRight _).err f3 h4
     exact .inl ⟨f4, d13.trans d4⟩
